@@ -28,6 +28,9 @@ def valid(inp):
             elif kind == "restart":
                 if ev.get("how", "both") not in ("ps", "pid", "both"):
                     return False
+            elif kind == "ready":
+                if not isinstance(ev.get("on", False), bool):
+                    return False
             elif kind not in ("init", "tick", "query"):
                 return False
         return passes <= 10 and len(inp["events"]) >= 1
@@ -42,7 +45,8 @@ PROP = Prop(
     streams=[Stream("avail", "c13avail", n_quick=600, n_thorough=20000, shards_thorough=4, valid=valid,
                     what="a real Peer single-stepped (InitAllTables, periodicUpdate+initTablesIfRestartRequiredError, "
                          "client data queries through NewResponse) against 1..5 scripted addresses switched ok/refuse/garbage, the core behind them "
-                         "restarting (program_start / nagios_pid change, same or changed objects), time shifted; GET sites "
+                         "restarting (program_start / nagios_pid change, same or changed objects) or answering the status query with zero rows "
+                         "(peered partner not ready), time shifted; GET sites "
                          "(status,last_error,idling,addr), failed, isOnline, the hostsbygroup table and the identity of the cached status / hosts "
                          "tables after every event (also right after the step that re-synchronised) vs C13.Model.trace")],
     trusted_base=[
